@@ -13,6 +13,7 @@ import (
 	"fmt"
 	"os"
 	"path/filepath"
+	"reflect"
 	"strconv"
 	"strings"
 	"time"
@@ -75,12 +76,31 @@ func hdrOp(a []string) (res string) {
 	dir := scratchDir("hdr")
 	defer os.RemoveAll(dir)
 	tbi := mio.NewTimeBucketInfo(utils.Timeframe{Duration: time.Duration(tf)}, dir, desc, int16(year), dsv, mio.EnumRecordType(rt))
+	// V = tbi.Validate() == nil, called through reflection: the method only exists in sources that
+	// have the schema validation ("-" otherwise)
+	v := "-"
+	if m := reflect.ValueOf(tbi).MethodByName("Validate"); m.IsValid() {
+		if out := m.Call(nil); len(out) == 1 && out[0].IsNil() {
+			v = "1"
+		} else {
+			v = "0"
+		}
+	}
 	f, err := os.Create(tbi.Path)
 	must(err)
+	wpanic := ""
 	func() {
 		defer f.Close()
+		defer func() {
+			if r := recover(); r != nil {
+				wpanic = panicClass(r)
+			}
+		}()
 		must(mio.WriteHeader(f, tbi))
 	}()
+	if wpanic != "" {
+		return wpanic + " V=" + v
+	}
 	raw, err := os.ReadFile(tbi.Path)
 	must(err)
 	enc := showRuns(raw)
@@ -105,7 +125,7 @@ func hdrOp(a []string) (res string) {
 	if noDesc(dec) == noDesc(showTBI(tbi)) {
 		p = "1"
 	}
-	return "enc=" + enc + " dec=" + dec + " P=" + p
+	return "enc=" + enc + " dec=" + dec + " P=" + p + " V=" + v
 }
 
 type strCol struct{ name, typ string }
